@@ -70,6 +70,17 @@ func (ex *Exec) global(g *ssa.Global) *Val {
 	if g.Pkg != nil && ex.eng.sharedInit(g.Pkg.Pkg.Path()) {
 		return ex.eng.sharedGlobal(g)
 	}
+	if g.Pkg != nil && g.Pkg.Pkg.Path() == "os" {
+		switch g.Name() {
+		case "ErrNotExist", "ErrExist", "ErrPermission", "ErrInvalid", "ErrClosed":
+			// os re-exports io/fs's error values
+			if p := ex.eng.Prog.ImportedPackage("io/fs"); p != nil {
+				if fg, ok := p.Members[g.Name()].(*ssa.Global); ok {
+					return ex.eng.sharedGlobal(fg)
+				}
+			}
+		}
+	}
 	if r, ok := ex.globals[g]; ok {
 		return r
 	}
@@ -275,11 +286,15 @@ func (ex *Exec) visitInstr(fr *frame, instr ssa.Instruction) (ret bool) {
 	case *ssa.Field:
 		fr.env[instr] = fr.get(instr.X).(StructV)[instr.Field]
 	case *ssa.IndexAddr:
-		fr.env[instr] = ex.indexAddr(fr.get(instr.X), fr.get(instr.Index))
+		fr.env[instr] = ex.indexAddr(fr.get(instr.X), idx64(fr, instr.Index))
 	case *ssa.Index:
-		fr.env[instr] = ex.index(fr.get(instr.X), fr.get(instr.Index))
+		fr.env[instr] = ex.index(fr.get(instr.X), idx64(fr, instr.Index))
 	case *ssa.Lookup:
-		fr.env[instr] = ex.lookup(instr, fr.get(instr.X), fr.get(instr.Index))
+		if _, isMap := instr.X.Type().Underlying().(*types.Map); isMap {
+			fr.env[instr] = ex.lookup(instr, fr.get(instr.X), fr.get(instr.Index))
+		} else {
+			fr.env[instr] = ex.lookup(instr, fr.get(instr.X), idx64(fr, instr.Index))
+		}
 	case *ssa.MapUpdate:
 		m := fr.get(instr.Map).(*MapV)
 		if m == nil {
@@ -485,3 +500,13 @@ func (ex *Exec) doRecover(caller *frame) Val {
 }
 
 var _ = token.NoPos
+
+// idx64 widens an index operand to 64 bits according to its static type.
+func idx64(fr *frame, v ssa.Value) Val {
+	t := fr.get(v).(*Term)
+	if t.W == 64 {
+		return t
+	}
+	_, signed, _ := intWidth(v.Type())
+	return Resize(t, 64, signed)
+}
